@@ -79,7 +79,7 @@ class CountHooks(flow.Hooks):
         d = dict(prop)
         for s in syms:
             if s.startswith("="):   # "=name:value" sets a typestate variable
-                k, v = s[1:].split(":", 1)
+                k, v = s[1:].rsplit(":", 1)
                 d[k] = v
             else:
                 d[s] = min(MANY, d.get(s, 0) + 1)
